@@ -743,6 +743,34 @@ def stream_bytes(obj):
     return b'\n'.join(item if isinstance(item, bytes) else str(item).encode() for item in obj.stream)
 
 
+def catalog_shape(pdf):
+    """The document-level structure of the PDF: the keys of the catalog and, for each name tree of /Names, how many names
+    it holds.  A reference that could not be fetched must leave no trace here either (an empty /EmbeddedFiles tree, a
+    dangling /AF, …)."""
+    def resolve(value):
+        text = value.decode() if isinstance(value, bytes) else value
+        if isinstance(text, str) and text.endswith(' R'):
+            return pdf.objects[int(text.split()[0])]
+        return value
+    shape = []
+    for key in sorted(pdf.catalog):
+        value = resolve(pdf.catalog[key])
+        if key == 'Names' and hasattr(value, 'items'):
+            for name, tree in sorted(value.items()):
+                tree = resolve(tree)
+                names = tree.get('Names', []) if hasattr(tree, 'get') else []
+                shape.append(f'Names/{name}:{len(list(names)) // 2}')
+        elif key == 'AF':
+            shape.append(f'AF:{len(list(value))}')
+        else:
+            shape.append(key)
+    return shape
+
+
+CATALOG_DIFF = ('the catalog of the PDF is not the one of the document without the failed references (a name tree or an entry '
+                'left behind by a reference that could not be fetched)')
+
+
 def pdf_attachments(pdf):
     """(embedded metadata attachments, file-attachment annotations) as content ids, from the pydyf document."""
     from props.c20 import attachment_id, md5_index
@@ -799,6 +827,7 @@ def run_real(gen, drop_failed=False, watch=True):
                                    attachments=gen.api_list(drop_failed) or None)
                 obs['embedded'], obs['annots'] = pdf_attachments(holder['pdf'])
                 obs['painted'] = painted_streams(holder['pdf'])
+                obs['catalog'] = catalog_shape(holder['pdf'])
             except Exception as exc:  # noqa: BLE001
                 obs['write'] = f'err:{type(exc).__name__}'
     if cache_folder:
@@ -864,7 +893,7 @@ def section(run):
                     'svg_only_escapes': svg_only_escapes(gen)}
             if plain:
                 meta['replay'] = payload(gen, '')['input']
-            elif 'absent=DIFF' in out or 'absent=PAINT-DIFF' in out:
+            elif 'absent=DIFF' in out or 'absent=PAINT-DIFF' in out or 'absent=CATALOG-DIFF' in out:
                 meta['absent'] = absent_payload(gen)
             sec.add(line, out, meta=meta, nontrivial=nontrivial, tags=sorted(gen.kinds) + outcome + (['plain'] if plain else []))
         sec.flush()
@@ -1037,7 +1066,7 @@ def matrix_section(run):
             meta = {'base': gen.base, 'kinds': sorted(gen.kinds), 'plain': plain, 'html': gen.html()}
             if plain:
                 meta['replay'] = payload(gen, '')['input']
-            elif 'absent=DIFF' in out or 'absent=PAINT-DIFF' in out:
+            elif 'absent=DIFF' in out or 'absent=PAINT-DIFF' in out or 'absent=CATALOG-DIFF' in out:
                 meta['absent'] = absent_payload(gen)
             regression = (kind, mode) in REGRESSION_CELLS
             sec.add(line, out, meta=meta, nontrivial=mode != 'ok' or regression,
@@ -1061,6 +1090,8 @@ def one_document(gen):
         absent = 'eq' if same else 'DIFF'
         if same and other.get('painted') != obs.get('painted'):
             absent = 'PAINT-DIFF'      # same boxes, same attachments, but the pages are not painted the same way
+        elif same and other.get('catalog') != obs.get('catalog'):
+            absent = 'CATALOG-DIFF:' + ','.join(sorted(set(obs.get('catalog') or []) ^ set(other.get('catalog') or [])))
     return sx.line('doc', gen.wire()), show_real(gen, obs, absent), failed_any
 
 
@@ -1153,11 +1184,14 @@ def oracle(html, base, table, tmp_prefix, expect, options=None):
             return 'the layout differs from the layout of the same document without the failed references'
         other_holder = {}
         try:
-            other.write_pdf(finisher=lambda doc, pdf: other_holder.setdefault('pdf', pdf), uncompressed_pdf=True)
+            other.write_pdf(finisher=lambda doc, pdf: other_holder.setdefault('pdf', pdf), uncompressed_pdf=True,
+                            attachments=expect.get('absent_attachments', attachments) or None)
         except Exception as exc:  # noqa: BLE001
             return f'writing the document without the failed references raised {type(exc).__name__}'
         if painted_streams(other_holder['pdf']) != painted_streams(holder['pdf']):
             return PAINT_DIFF
+        if catalog_shape(other_holder['pdf']) != catalog_shape(holder['pdf']):
+            return CATALOG_DIFF
     return None
 
 
@@ -1251,7 +1285,7 @@ def expectations(gen):
         [s['url'] for s in gen.styles if s['kind'] == 'link'] + gen.api_attachments
     return {'urls': urls, 'must_fetch': must, 'replaced_ids': replaced, 'alt': alt, 'rules': sorted(good),
             'rules_absent': sorted(absent), 'rules_all': sorted(gen.rule_ids), 'embedded': embedded,
-            'absent_html': gen.html(True), 'absent_table': gen.fetch_table(True)}
+            'absent_html': gen.html(True), 'absent_table': gen.fetch_table(True), 'absent_attachments': gen.api_list(True)}
 
 
 def check_plain(gen):
@@ -1301,13 +1335,16 @@ def absent_check(inp):
         except Exception as exc:  # noqa: BLE001
             results.append(f'err:{type(exc).__name__}')
             continue
-        results.append((fingerprint(document), pdf_attachments(holder['pdf']), painted_streams(holder['pdf'])))
+        results.append((fingerprint(document), pdf_attachments(holder['pdf']), painted_streams(holder['pdf']),
+                        catalog_shape(holder['pdf'])))
     if isinstance(results[0], str) or isinstance(results[1], str):
         return None      # this input no longer reaches the comparison
     if results[0][:2] != results[1][:2]:
         return 'the result differs from the result of the document without the failed references'
     if results[0][2] != results[1][2]:
         return PAINT_DIFF
+    if results[0][3] != results[1][3]:
+        return CATALOG_DIFF + ': ' + ', '.join(sorted(set(results[0][3]) ^ set(results[1][3])))
     return None
 
 
